@@ -6,7 +6,7 @@ use std::sync::Arc;
 
 use searchlite_core::api::types::StorageType;
 use searchlite_core::api::Index;
-use searchlite_core::storage::{InMemoryStorage, Storage};
+use searchlite_core::storage::Storage;
 use searchlite_core::Schema;
 use serde_json::{json, Value};
 
@@ -121,7 +121,8 @@ pub fn alphabet(cfg: &Config) -> Vec<Op> {
 pub struct Env {
   pub schema: Schema,
   pub root: PathBuf,
-  pub mem: Option<Arc<InMemoryStorage>>,
+  /// in-memory or wrapped storage; None = plain FsStorage at `root`
+  pub mem: Option<Arc<dyn Storage>>,
   pub positions: bool,
   pub _scratch: Option<Scratch>,
 }
@@ -132,7 +133,7 @@ impl Env {
     if cfg.mem {
       let (idx, st, root) = mem_index_opts(&sch, cfg.positions);
       (
-        Env { schema: sch, root, mem: Some(st), positions: cfg.positions, _scratch: None },
+        Env { schema: sch, root, mem: Some(st as Arc<dyn Storage>), positions: cfg.positions, _scratch: None },
         idx,
       )
     } else {
@@ -152,7 +153,7 @@ impl Env {
     if let Some(st) = &self.mem {
       let mut o = opts(&self.root, StorageType::InMemory);
       o.enable_positions = self.positions;
-      Index::open_with_storage(o, st.clone() as Arc<dyn Storage>)
+      Index::open_with_storage(o, st.clone())
     } else {
       let mut o = opts(&self.root, StorageType::Filesystem);
       o.enable_positions = self.positions;
@@ -170,7 +171,7 @@ impl Env {
 
   pub fn storage(&self) -> Arc<dyn Storage> {
     if let Some(st) = &self.mem {
-      st.clone() as Arc<dyn Storage>
+      st.clone()
     } else {
       Arc::new(searchlite_core::storage::FsStorage::new(self.root.clone()))
     }
@@ -255,6 +256,16 @@ impl Exec {
 
   pub fn from_parts_pub(cfg: &Config, env: Env, idx: Index) -> Exec {
     Self::from_parts(cfg, env, idx)
+  }
+
+  /// Index created on a caller-supplied storage (e.g. a fault-injecting wrapper).
+  pub fn new_with_storage(cfg: &Config, root: &std::path::Path, storage: Arc<dyn Storage>, scratch: Option<Scratch>) -> anyhow::Result<Exec> {
+    let sch = schema_s3(cfg.compactable);
+    let mut o = opts(root, StorageType::InMemory);
+    o.enable_positions = cfg.positions;
+    let idx = Index::create_with_storage(root, sch.clone(), o, storage.clone())?;
+    let env = Env { schema: sch, root: root.to_path_buf(), mem: Some(storage), positions: cfg.positions, _scratch: scratch };
+    Ok(Self::from_parts(cfg, env, idx))
   }
 
   fn from_parts(cfg: &Config, env: Env, idx: Index) -> Exec {
